@@ -1821,6 +1821,16 @@ class Model:
         self._readouts[name] = Readout(fn=fn, args=args, unit=unit)
         return self
 
+    def _sorted_readouts(self, available: set[str]) -> list[str]:
+        """Readout names in dependency order: a readout may name other readouts, however declared."""
+        return _sort_dependencies(
+            available=available,
+            elements=[
+                Dependency(name=k, required=set(v.args), provided={k})
+                for k, v in self._readouts.items()
+            ],
+        )
+
     def get_readout_names(self) -> list[str]:
         """Retrieve the names of all readouts.
 
@@ -2202,8 +2212,8 @@ class Model:
         if include_readouts:
             # like derived quantities, readouts may name data sets (removed from raw by _get_args)
             scope = self._data | raw
-            for name, ro in self._readouts.items():  # FIXME: order?
-                ro.calculate_inpl(name, scope)
+            for name in self._sorted_readouts(set(scope)):
+                self._readouts[name].calculate_inpl(name, scope)
                 raw[name] = scope[name]
         args = pd.Series(raw, dtype=float)
         return args.loc[
@@ -2230,6 +2240,7 @@ class Model:
             cache = self._create_cache()
 
         args_by_time = {}
+        readout_order: list[str] | None = None
         for time, values in variables.iterrows():
             args = self._get_args(
                 variables=values.to_dict(),
@@ -2239,8 +2250,10 @@ class Model:
             if include_readouts:
                 # like derived quantities, readouts may name data sets (removed from args by _get_args)
                 scope = self._data | args
-                for name, ro in self._readouts.items():  # FIXME: order?
-                    ro.calculate_inpl(name, scope)
+                if readout_order is None:
+                    readout_order = self._sorted_readouts(set(scope))
+                for name in readout_order:
+                    self._readouts[name].calculate_inpl(name, scope)
                     args[name] = scope[name]
             args_by_time[time] = args
         return args_by_time
